@@ -80,6 +80,19 @@ Fixpoint cover (t : tree) (off : N) (m : lmode) (parent : option kind) (rs re : 
       end
   end.
 
+(* the node a range request would hand to the converters, if any *)
+Definition range_node (t : tree) (a b : N) : option tree :=
+  let s := into_text t in
+  let len := byte_len s in
+  match trim_range s (N.min a len) (N.min b len) with
+  | Ok (rs, re) =>
+      match cover t 0 LMarkup None rs (N.min re len) with
+      | Some (node, _, _, _) => Some node
+      | None => None
+      end
+  | Panic _ => None
+  end.
+
 Inductive rres :=
 | ROk (rs re : N) (out : str)
 | RErr
@@ -105,7 +118,12 @@ Section Partial.
               let bundle := build swidth cfg (annotate node) in
               let m :=
                 if kind_eqb (kind_of node) KMarkup then call bundle (RMarkup c ScDocument)
-                else if is_expr node then call bundle (RExpr c)
+                else if is_expr node then
+                  (* a child of Markup or Math is converted as the markup and math loops do *)
+                  match parent with
+                  | Some KMarkup | Some KMath => call bundle (RExprEmb c)
+                  | _ => call bundle (RExpr c)
+                  end
                 else call bundle (RPattern c) in
               match run_m m with
               | Panic p => RPanic p
